@@ -1,5 +1,5 @@
-// Shared helpers for the /verif correspondence harnesses grafted into package auth by -overlay.
-// Not part of the repository; lives in /verif/go/harness/auth.
+// Shared helpers for the /verif correspondence harnesses grafted into package mcp by -overlay.
+// Not part of the repository; lives in /verif/go/harness/mcp.
 package auth
 
 import (
